@@ -178,7 +178,7 @@ func (r *remoteKeySet) keysFromRemote(ctx context.Context) ([]jose.JSONWebKey, e
 		// This goroutine has exclusive ownership over the current inflight
 		// request. It releases the resource by nil'ing the inflight field
 		// once the goroutine is done.
-		go r.updateKeys(ctx)
+		go r.updateKeys(context.WithoutCancel(ctx))
 	}
 	inflight := r.inflight
 	r.mu.Unlock()
